@@ -1,4 +1,5 @@
 From Coq Require Import ZArith Extraction ExtrOcamlBasic.
-From CyVerif Require Import Lib.CInt Model.M_Fused.
+From CyVerif Require Import Lib.CInt Model.M_Fused Model.M_FusedArgs.
 Extraction "../ocaml/gen/m_fused.ml" ex_keep pysort ty_lt split_fused map_fused dispatch_cy call_cy
-  doc_choice doc_call getitem all_sigs.
+  doc_choice doc_call getitem all_sigs
+  plans run_plan fetch_all bind_py wf_sig hazard_free decl_of call2_cy doc_call2 call_index defaults_tuple.
